@@ -521,8 +521,8 @@ def _tab_error(state: TokenizerState) -> TabError:
 
 
 def next_psuedo_matches(state: TokenizerState) -> TokenInfo | None:
-    if state.pos == state.max or state.in_fstring():
-        return None
+    if state.pos == state.max or state.in_fstring() or state.in_colon():
+        return None  # literal text of an f-string (or of a format spec): handle_end_progs reads it
     match = state.match(PseudoToken)
     if (not match) or (not match.lastgroup):
         return None
